@@ -1,3 +1,4 @@
+import Hcl.Proofs.AcceptedValid
 import Hcl.Proofs.Settle
 import Hcl.Spec.Machine
 open Rust
@@ -128,3 +129,32 @@ example (p : Program) (m : Mem) (s : State) (h : State.init p m = .ok s) : s.reg
   simp only [State.init] at h
   obtain ⟨v, _, h⟩ := bind_ok h
   simp only [pure, Except.pure] at h; cases h; rfl
+
+/-! ### for every accepted program -/
+
+/-- the state-changing actions of the table, in table order (E before M) -/
+theorem y86_final_actions : (y86FixedFunctions.map (·.action)).filter (fun a => !a.isPure) =
+    [.setStatus "Stat", .writeMem (some "mem_writebit") "mem_addr" "mem_input" 8,
+     .writeReg "reg_dstE" "reg_inputE", .writeReg "reg_dstM" "reg_inputM"] := by
+  simp [y86FixedFunctions, Action.isPure]
+
+/-- **C04 for every accepted program**: whatever the iteration order, every value-writing action (both register
+    read ports among them) comes before every state-changing one, and the state-changing actions are a
+    sub-sequence of `Stat`, memory write, register write E, register write M — in this order, so that a write
+    through port M is applied after, and wins over, a write through port E. -/
+theorem C04_accepted_order (fl : Flags) (cls : CharClass) (o : Orders) (stmts : List Stmt) (p : Program)
+    (ho : OrdersOK o) (hwf : StmtsWF stmts)
+    (h : Program.new fl cls o y86FixedFunctions stmts = .ok p) :
+    ∃ pre fin, p.actions = pre ++ fin ∧ (∀ a ∈ pre, a.isPure = true) ∧
+      fin.Sublist [.setStatus "Stat", .writeMem (some "mem_writebit") "mem_addr" "mem_input" 8,
+        .writeReg "reg_dstE" "reg_inputE", .writeReg "reg_dstM" "reg_inputM"] := by
+  obtain ⟨pre, fin, _, hsplit, hv, hfin, _, _, hsub⟩ := Program_new_valid fl cls o stmts p ho hwf h
+  refine ⟨pre, fin, hsplit, validFrom_pure pre [] hv, ?_⟩
+  rw [← y86_final_actions]
+  have hfilter : fin = fin.filter (fun a => !a.isPure) := by
+    symm
+    apply List.filter_eq_self.mpr
+    intro a ha
+    simp [hfin a ha]
+  rw [hfilter]
+  exact hsub.filter _
